@@ -134,8 +134,9 @@ func Run(c *verdict.Ctx) int {
 	close(vjobs)
 	wg.Wait()
 
-	if c.Thorough() {
-		nb := 60
+	{
+		// tier B: the real light-client state provider (a slice of it in the quick tier: it is cheap)
+		nb := c.N(18, 60)
 		if v, err := strconv.Atoi(os.Getenv("VERIF_C14_NB")); err == nil && v >= 0 {
 			nb = v
 		}
@@ -264,7 +265,7 @@ func runCase(c *verdict.Ctx, dir, strm string, idx int, verbose bool) {
 	var code int
 	for try := 0; try < 2; try++ {
 		var out string
-		out, tail, code = spawn(c, dir, "scenario", strm, idx, 90*time.Second)
+		out, tail, code = spawn(c, dir, "scenario", strm, idx, 300*time.Second)
 		var err error
 		h, evs, err = readLog(out)
 		_ = os.RemoveAll(filepath.Dir(out))
